@@ -134,7 +134,12 @@ static std::string run(const Case& c, const std::string& form) {
     }
     if (form == "aa") {
         return with_arr<T>(kind(0), a[2], CL, [&](const auto& x) {
-            return with_arr<T>(kind(1), a[3], CL, [&](const auto& y) -> std::string { return m.cmp(x, y); });
+            return with_arr<T>(kind(1), a[3], CL, [&](const auto& y) -> std::string {
+                using X = std::decay_t<decltype(x)>; using Y = std::decay_t<decltype(y)>;
+                // two nested std::arrays are "packed" for the public entry: different static shapes do not compile
+                if constexpr (meta::has_tuple_size_v<X> && meta::has_tuple_size_v<Y> && !std::is_same_v<X, Y>) return "unsupported";
+                else return m.cmp(x, y);
+            });
         });
     }
     if (form == "ia") {
